@@ -48,7 +48,7 @@ def main(tier):
         assumptions=["-j1, REDO_LOG=0", "flat single-directory worlds",
                      "slack: dependents of a removed checksummed target whose rebuild gives the same checksum may or may not re-run; "
                      "the sibling immediately after a failing one may already have been started"],
-        budget_s=45 if tier == "quick" else 3000)
+        budget_s=900 if tier == "quick" else 6000)
 
 
 def replay(path):
